@@ -39,6 +39,8 @@ MCOVER = [
     [],
     [[1.0, 1.0], [0.0, 4.0]],
     [[0.0, 1.0], [2.0, 5.0], [1.0, 4.0]],        # integer coordinates with odd birth + death
+    [[0.0, INF], [1.0, 2.0], [0.5, 3.0]],        # an infinite death BEFORE the finite points (ripser's H0 layout reversed)
+    [[2.0, 2.5], [1.0, INF]],
 ]
 
 
@@ -392,7 +394,9 @@ def matching_case(case, ctx):
 
     S, T = MCOVER[case["i"]], MCOVER[case["j"]]
     A, B = np.array(S, dtype=float).reshape(-1, 2), np.array(T, dtype=float).reshape(-1, 2)
-    S1, T1 = (S or [[0.0, 0.0]]), (T or [[0.0, 0.0]])
+    # the distance functions drop points with infinite death: the matching indexes the remaining points
+    Sfin, Tfin = [p for p in S if np.isfinite(p[1])], [p for p in T if np.isfinite(p[1])]
+    S1, T1 = (Sfin or [[0.0, 0.0]]), (Tfin or [[0.0, 0.0]])
     ctx.state(case)
     todo = []
     dw, mw = persim.wasserstein(A, B, matching=True)
@@ -428,7 +432,7 @@ def matching_case(case, ctx):
         # the diagrams are handed to the plot as float arrays, or - where every coordinate is an integer - as
         # integer arrays (rotating with the axes mode): feet on the diagonal have half-integer coordinates then
         Ap, Bp = A, B
-        if case["axmode"] != "given-current" and all(float(x).is_integer() for p_ in S + T for x in p_):
+        if case["axmode"] != "given-current" and all(float(x).is_integer() for p_ in S + T for x in p_ if np.isfinite(x)) and all(np.isfinite(x) for p_ in S + T for x in p_):
             Ap, Bp = A.astype(np.int64 if case["axmode"] == "not-given" else np.int32), B.astype(np.int64)
             ex["dtype"] = "integer arrays"
         getattr(persim, which + "_matching")(Ap, Bp, m, **kw)
@@ -470,8 +474,11 @@ def matching_case(case, ctx):
                           observed=[list(seg_key(l)) for l in segs], expected=missing, extra=ex)
             plt.close(fig)
             continue
+        has_inf = len(Sfin) < len(S) or len(Tfin) < len(T)
         extra_lines = [list(seg_key(l)) for idx, l in enumerate(segs) if idx not in used
-                       and not (abs(seg_key(l)[0] - seg_key(l)[1]) <= 1e-9 and abs(seg_key(l)[2] - seg_key(l)[3]) <= 1e-9)]
+                       and not (abs(seg_key(l)[0] - seg_key(l)[1]) <= 1e-9 and abs(seg_key(l)[2] - seg_key(l)[3]) <= 1e-9)
+                       # (the horizontal infinity line of the underlying diagram plot, when infinite deaths are present)
+                       and not (has_inf and abs(float(l.get_ydata()[0]) - float(l.get_ydata()[1])) <= 1e-9)]
         if extra_lines:
             ctx.violation("matching-extra-segment", "%s_matching drew segments that belong to no matched pair" % which, observed=extra_lines, extra=ex)
         if len(scatters(target)) != 2:
